@@ -134,6 +134,7 @@ def run(ctx) -> Result:
     res.rule("M3", "draw ranges and step count", 3)
     res.rule("M4", "vector -> buckets conversion; uniform permutations", 4)
     res.rule("M5", "dataset wrappers pass arguments through to the generators and the Dataset constructor", 2)
+    res.rule("M6", "the Dataset constructor flags m complete rankings as complete (and counts them) for every m of the grid", 1)
     nmax = 5 if ctx.thorough else 4
     # ------------------------------------------------------------------ M1 / M2
     for mode, draws in (("complete", (1, 2, 3, 4)), ("incomplete", (1, 2, 3, 4, 5))):
@@ -207,6 +208,8 @@ def run(ctx) -> Result:
     _check_uniform(res, proj)
     # ------------------------------------------------------------------ M5
     _check_wrappers(res, proj)
+    from . import C16
+    C16.check_flags_many(res, proj, "M6")
     res.not_decided.append("the distribution of the generated rankings (probabilistic)")
     res.not_decided.append("n = 0 (numpy max of an empty array) - outside the stated grid")
     return res
